@@ -964,10 +964,18 @@ def j_c13(case, resps):
             if d > tol:
                 out.append(V("C13", grp, kind, "rotation", case["tags"], line, "rotation() does not reproduce the supplied rotation", d, tol))
         if kind in ("ctor_xyt", "ctor_xyzrpy", "ctor_taa", "ctor_iso"):
-            got = [Tm[i, g.n - 1] for i in range(g.dim)]
+            pcol = 3 if grp == "SE_2_3" else g.n - 1          # SE_2(3): [R p v], SGal(3): [R v p; 0 1 t]
+            got = [Tm[i, pcol] for i in range(g.dim)]
             d = max(abs(a - b) for a, b in zip(got, tr))
             if d > 0:
                 out.append(V("C13", grp, kind, "translation", case["tags"], line, "translation() does not reproduce the supplied translation", d, 0))
+            if grp in ("SE_2_3", "SGal3") and kind == "ctor_iso":
+                vcol = 4 if grp == "SE_2_3" else 3
+                dv = max(abs(Tm[i, vcol] - mpf(data[16 + i])) for i in range(3))
+                if grp == "SGal3":
+                    dv = max(dv, abs(Tm[3, 4] - mpf(data[19])))
+                if dv > 0:
+                    out.append(V("C13", grp, kind, "velocity/time", case["tags"], line, "linearVelocity() / t() do not reproduce the supplied values", dv, 0))
     return out
 
 
@@ -1197,7 +1205,7 @@ def c07n_case(r, group, dbg=True):
 def cases(prop, r, group, n, dbg=True):
     cs = []
     G = gen.GROUPS[group]
-    for _ in range(n):
+    for _it in range(n):
         if prop == "C01":
             X, tx = gen.element(r, group, norm="exact")
             Y, ty = gen.element(r, group, norm="exact")
@@ -1261,10 +1269,25 @@ def cases(prop, r, group, n, dbg=True):
             cs.append(c07n_case(r, group, dbg))
         elif prop == "C05":
             op = r.choice(["exp", "log", "inverse", "compose", "between", "rplus", "lplus", "rminus", "lminus", "act"])
-            ang = ["zero", "denormal", "tiny", "small", "below-switch", "above-switch", "cuberoot-switch",
+            ang = ["zero", "denormal", "tiny", "small", "below-switch", "above-switch", "cuberoot-switch", "fourthroot-switch",
                    "low", "generic", "near-pi6"]
             lin = ["zero", "tiny", "unit", "large"]
             c = dict(prop=prop, group=group, kind="c05", op=op)
+            if _it < 3 and any(k == "quat" for k, _ in gen.GROUPS[group]["rep"]):
+                # always: log at a quaternion stored in the other hemisphere (w < 0), rotation small but not tiny
+                for _try in range(40):
+                    X, tg = gen.element(r, group, norm="exact", angle_only=["low"], lin_only=["unit"], hemi_only="w-")
+                    i0 = 0
+                    for kind, m in gen.GROUPS[group]["rep"]:
+                        if kind == "quat":
+                            break
+                        i0 += m
+                    vn = math.sqrt(sum(x * x for x in X[i0:i0 + 3]))
+                    if [2e-6, 2e-5, 1e-4][_it] <= 2 * vn <= [2e-5, 1e-4, 6e-4][_it]:       # rotation angle inside the band
+                        break
+                c.update(op="log", X=X, tags=["log"] + tg, reqs=[gen.req(dbg, "o", group, "log", 1, X)])
+                cs.append(c)
+                continue
             if op == "exp":
                 t, tg = gen.tangent(r, group, angle_only=ang, lin_only=lin)
                 c.update(t=t, tags=[op] + tg, reqs=[gen.req(dbg, "o", group, op, 1, t)])
@@ -1418,6 +1441,11 @@ def cases_algo(prop, r, group, n, exe):
                 Rm, _ = l1._rotmat(r)
                 t = lin(3)
                 h = Rm[0:3] + [t[0]] + Rm[3:6] + [t[1]] + Rm[6:9] + [t[2]] + [0.0, 0.0, 0.0, 1.0]
+                plan.append(("ctor_iso", h)); reqs.append(gen.req(dbg, "o", group, "ctor_iso", 0, h))
+            elif group in ("SE_2_3", "SGal3"):
+                Rm, _ = l1._rotmat(r)
+                t = lin(3)
+                h = Rm[0:3] + [t[0]] + Rm[3:6] + [t[1]] + Rm[6:9] + [t[2]] + [0.0, 0.0, 0.0, 1.0] + lin(3) + ([lin(1)[0]] if group == "SGal3" else [])
                 plan.append(("ctor_iso", h)); reqs.append(gen.req(dbg, "o", group, "ctor_iso", 0, h))
         if reqs:
             cs.append(dict(prop=prop, group=group, kind="c13", reqs=reqs, plan=plan, tags=["ctor"]))
